@@ -77,6 +77,11 @@ T = [
     ("min/max results behind a double negation", "C03", ["minmax_chains"], "{ sel(P,V) } :- skill(P,V).\nbest(P,X) :- grp(P); X = #max { V: sel(P,V) }.\n:~ not not best(P,X); skill(P,X). [X@1,P]\n", [["grp", 1], ["skill", 2]], [["sel", 2]], None, None, ["c03"], {}),
     ("sum_chains leaves aggregates alone in statements that use the variable __PREV", "C07", ["sum_chains"], "1 >= { shift(G0,P): len(P) } :- day(G0).\na(__PREV) :- __PREV = #sum { N,f(G0): shift(G0,N); B,g(P): pl(P,B) }.\n", [["day", 1], ["len", 1], ["pl", 2]], [["a", 1], ["shift", 2]], [["day(1)", "len(1)", "len(2)", "pl(1,1)"]], {"kind": "set", "voc": "inout", "cost": False}, ["equiv", "c07"], {}),
     ("minmax_chains keeps the rule when a moved literal uses a variable bound by a literal that stays", "C12", ["minmax_chains"], "task(T) :- t(T).\n{ sel(L,V) } :- skill(L,V).\nlvl((0..3)).\nbest(L,X) :- lvl(T); X = #max { V: sel(L,V) }; L = #sum { T,T: task(T) }.\n", [["skill", 2], ["t", 1]], [["best", 2], ["lvl", 1], ["sel", 2], ["task", 1]], [["skill(2,1)", "t(2)"]], BIJ, ["equiv"], {}),
+    ("minmax_chains keeps the rule when a group variable is not bound by the moved literals", "C04", ["minmax_chains"], "{ sel(P,V) } :- skill(P,V).\nperson(1).\nskill(1,2).\nskill(1,4).\nres(P,M) :- person(P); M = #max { V: sel(P,V) }; ok(P,AUX): cand(V).\n", [["cand", 1], ["ok", 2]], [["res", 2], ["sel", 2]], [[]], BIJ, ["equiv", "c04"], {}),
+    ("sum_chains leaves atoms alone whose group argument contains an anonymous variable inside a term", "C04", ["sum_chains"], "1 >= { shift(D,L): len(L) } :- day(D).\n:~ shift((_+0),L); day(D). [L@0,D]\n", [["day", 1], ["len", 1]], [["shift", 2]], [["day(1)", "len(2)"]], {"kind": "set", "voc": "out", "cost": True}, ["equiv", "c04"], {}),
+    ("minmax_chains requires the moved literals themselves to bind the group variables", "C04", ["minmax_chains"], "{ sel(P,V) } :- skill(P,V).\nperson(1).\nskill(1,2).\nskill(1,4).\nres(P,M) :- person(P); M = #max { V: sel(P,V) }; ok(V,X0): cand(X0).\n", [["cand", 1], ["ok", 2]], [["res", 2], ["sel", 2]], [[]], BIJ, ["equiv", "c04"], {}),
+    ("math leaves comparisons and aggregate guards with an anonymous variable alone", "C14", ["math"], "{ perm(J,K) } :- dp(J,K).\n:- X = #count { J: perm(J,_) }; _ = #count { J: job(J) }; not Y != X.\n", [["dp", 2], ["job", 1]], [["perm", 2]], [["job(1)", "dp(1,3)", "dp(5,-1)"]], BIJ, ["equiv"], {}),
+    ("no domain for a head element whose variable is also a local variable of a body aggregate", "C20", ["symmetry", "minmax_chains", "sum_chains"], "1 >= { p(G,V): d(W,V) } :- g(G); 1 <= #count { W: d(G,W) }.\n:~ p(G,V). [V@1,G]\n", [["d", 2], ["g", 1]], [["p", 2]], [["d(5,5)", "d(2,2)", "d(5,1)", "g(1)", "g(-1)", "g(5)", "g(2)"]], None, ["c20"], {}),
 ]
 
 
